@@ -102,6 +102,30 @@ def make_doc(r, tier, names=None, strings=None, falsy_bias=0.25, wide_p=0.04):
                        strings=strings, falsy_bias=falsy_bias, wide_p=wide_p)
 
 
+_ND_ENV = []
+
+
+def nd_env():
+    if not _ND_ENV:
+        _ND_ENV.append(lib.make_env(nondeterministic=True))
+    return _ND_ENV[0]
+
+
+def order_determined(ast, doc, registry=None):
+    """In nondeterministic mode RFC 9535 leaves open only the order of object members (wildcard and filter selectors
+    applied to an object) and the visiting order of descendant segments.  True if the query meets neither on this
+    value: its result is then fully determined, mode or no mode."""
+    segs = ast[2]
+    for i, seg in enumerate(segs):
+        if seg[0] == "desc":
+            return False
+        if any(sel[0] in ("wild", "filter") for sel in seg[1]):
+            inputs = ev.find(["q", "$", segs[:i]], doc, registry)
+            if any(isinstance(v, dict) and len(v) > 1 for _, v in inputs):
+                return False
+    return True
+
+
 def examine_find(case, registry=None, env=None):
     """Differential: lib.find(text, doc) vs reference nodelist (locations + identity)."""
     q, ast, doc = case["q"], case["ast"], case["doc"]
@@ -112,6 +136,12 @@ def examine_find(case, registry=None, env=None):
         # the same data built from dict/list subclasses (OrderedDict, plain dict and list subclasses)
         doc = V.exotic(doc, case["exotic"])
     expected = ev.find(ast, doc, registry)
+    multiset_only = False
+    if case.get("nondet") and env is None and registry is None:
+        # the same query on an environment in nondeterministic mode: same nodes always, same order whenever the RFC
+        # leaves nothing open for this query on this value
+        env = nd_env()
+        multiset_only = not order_determined(ast, doc, registry)
     with lib.ambient(case.get("ambient")):
         if case.get("interrupted"):
             # the FIRST application of the freshly compiled query is made from deep inside a host program's stack and
@@ -125,7 +155,7 @@ def examine_find(case, registry=None, env=None):
                     here, f = here + 1, f.f_back
                 try:
                     lib.at_depth(sys.getrecursionlimit() - here - case["interrupted"], lambda: cq.find(doc))
-                except (RecursionError, lib.JSONPathError):
+                except Exception:  # noqa: BLE001 - whatever ended the first application, only what follows is judged here
                     pass
                 status, got = lib.find(cq, doc, env)
         else:
@@ -134,6 +164,10 @@ def examine_find(case, registry=None, env=None):
         return {"bucket": f"raised:{got['type']}:{got['frame']}",
                 "what": f"find({q!r}) raised {got['type']}: {got['str']}",
                 "expected": ev.show_nodes(expected), "observed": got}
+    if multiset_only:
+        key = lambda n: (repr(tuple(n[0])), id(n[1]))  # noqa: E731
+        if sorted(map(key, expected)) == sorted(map(key, got)):
+            return None
     if not ev.same_nodelist(expected, got):
         el = [l for l, _ in expected]
         gl = [tuple(l) for l, _ in got]
@@ -151,8 +185,10 @@ def examine_find(case, registry=None, env=None):
             kind = "different"
         feats = sorted(Q.features(ast) & {"descendant", "filter", "slice", "call", "not", "or", "and", "cmp",
                                            "abs-in-filter", "negative-index", "multi-selector", "wild"})
-        return {"bucket": f"nodelist:{kind}:{'+'.join(feats)}",
-                "what": f"find({q!r}) differs from the RFC 9535 nodelist ({kind})",
+        nd = " in nondeterministic mode (the result is fully determined for this query and value)" if case.get("nondet") and not multiset_only else \
+            " in nondeterministic mode" if case.get("nondet") else ""
+        return {"bucket": f"nodelist:{kind}:{'+'.join(feats)}" + (":nondet" if nd else ""),
+                "what": f"find({q!r}){nd} differs from the RFC 9535 nodelist ({kind})",
                 "expected": ev.show_nodes(expected), "observed": ev.show_nodes(got), "kind": kind}
     return None
 
